@@ -273,10 +273,14 @@ func TestStreamDet(t *testing.T) {
 	out := &streamOut{stats: map[string]int{}}
 	for i := 0; i < cases; i++ {
 		r := &Rng{s: seed*1000003 + uint64(i)*7919 + 101}
+		recorder.enabled = true
 		w := NewWorld(t, 3)
 		g := &DetGen{w: w, r: r, stats: map[string]int{}}
 		g.Run(nops, i, replicas)
 		out.add(w, g.stats)
+		for _, c := range w.Chains {
+			recorder.forget(c.App)
+		}
 	}
 	out.write(t, "det")
 }
@@ -289,10 +293,14 @@ func TestStreamGenesis(t *testing.T) {
 	out := &streamOut{stats: map[string]int{}}
 	for i := 0; i < cases; i++ {
 		r := &Rng{s: seed*1000003 + uint64(i)*7919 + 111}
+		recorder.enabled = true
 		w := NewWorld(t, 3)
 		g := &GenesisGen{w: w, r: r, stats: map[string]int{}}
 		g.Run(nops, i)
 		out.add(w, g.stats)
+		for _, c := range w.Chains {
+			recorder.forget(c.App)
+		}
 	}
 	out.write(t, "genesis")
 }
